@@ -93,9 +93,13 @@ def ext_group():
     ex = lambda *st: {"ep": "execute", "tx": False, "stmts": list(st)}
     ins = lambda: raw("INSERT INTO {T}t(a, b) VALUES('plain', {tag})", "plain-insert", False)
     cases = [
-        # connection state: a TEMP table lives in the connection of the node that applied the CREATE, not in snapshots
-        one("ext-temp-table", [ex(raw("CREATE TEMP TABLE {T}tmp(x)", "ext:temp-table:create", False), raw("INSERT INTO {T}tmp(x) VALUES(7)", "ext:temp-table:fill", False)),
-                               ex(raw("INSERT INTO {T}t(a, b) SELECT x, {tag} FROM {T}tmp", "ext:temp-table:use", False))], snap_after=1),
+        # connection state: a TEMP table and last_insert_rowid() live in the connection of the node that applied the
+        # earlier entries live -- not in snapshots, not in a node that restarts, recovers or joins
+        one("ext-temp-table", [ex(raw("CREATE TEMP TABLE {T}tmp(x)", "ext:connection-state:temp-table-create", False),
+                                  raw("INSERT INTO {T}tmp(x) VALUES(7)", "ext:connection-state:temp-table-fill", False)),
+                               ex(raw("INSERT INTO {T}t(a, b) SELECT x, {tag} FROM {T}tmp", "ext:connection-state:temp-table", False))], snap_after=1),
+        one("ext-last-insert-rowid", [ex(raw("INSERT INTO {T}t(id, a, b) VALUES(40, 'forty', {tag})", "plain-insert", False)),
+                                      ex(raw("INSERT INTO {T}t(a, b) VALUES(last_insert_rowid(), {tag})", "ext:connection-state:last-insert-rowid", False))], snap_after=1),
         # 'now' handed to a date/time function as a bound parameter
         one("ext-now-parameter", [ex(raw("INSERT INTO {T}t(a, b) VALUES(datetime(?), {tag})", "ext:now-as-parameter:fn=datetime", True, ["now"])),
                                   {"ep": "request", "tx": False, "stmts": [raw("UPDATE {T}t SET a = julianday(:w), b = {tag} WHERE id = 2", "ext:now-as-parameter:fn=julianday", True, [{"w": "now"}])]}]),
@@ -112,7 +116,15 @@ def ext_group():
         one("ext-view-body", [ex(raw("CREATE VIEW {T}vn AS SELECT julianday('now') AS j", "ext:view-body:fn=julianday", True)),
                               ex(raw("INSERT INTO {T}t(a, b) SELECT j, {tag} FROM {T}vn", "ext:view-body:use", False))]),
     ]
-    return {"id": "ext", "norw": False, "snap_half": False, "cases": cases}
+    # the nodes of this group enforce foreign keys (-fk): does every apply path?
+    cases.append(one("ext-foreign-keys", [
+        ex(raw("CREATE TABLE {T}p(id INTEGER PRIMARY KEY)", "ext:fk:schema", False),
+           raw("CREATE TABLE {T}c(id INTEGER PRIMARY KEY, pid REFERENCES {T}p(id) ON DELETE CASCADE, tag)", "ext:fk:schema", False),
+           raw("INSERT INTO {T}p(id) VALUES(1), (2)", "ext:fk:parents", False),
+           raw("INSERT INTO {T}c(pid, tag) VALUES(1, {tag}), (2, {tag})", "ext:fk:children", False)),
+        ex(raw("INSERT INTO {T}c(pid, tag) VALUES(99, {tag})", "ext:fk:insert-without-parent", False)),
+        ex(raw("DELETE FROM {T}p WHERE id = 1", "ext:fk:delete-cascade", False))]))
+    return {"id": "ext", "norw": False, "snap_half": False, "fk": True, "cases": cases}
 
 
 def run(ctx):
@@ -121,7 +133,7 @@ def run(ctx):
     gen_runs = ctx.pick(1, 4)
     ctx.harness()      # build once, before the threads
     shim = build_shim(ctx)
-    with concurrent.futures.ThreadPoolExecutor(max_workers=12) as ex:
+    with concurrent.futures.ThreadPoolExecutor(max_workers=ctx.pick(4, 6)) as ex:     # generator first: the replay waits for it
         per_run = -(-nprog // gen_runs)
         f_gen = [ex.submit(vlib.tlc_cases, ctx, "Replica", "Replica_gen.cfg", simulate="num=%d" % (per_run + 4), depth=100,
                            seed=ctx.seed * 100 + i, timeout=2400, heap="2g") for i in range(gen_runs)]
@@ -191,7 +203,7 @@ def run(ctx):
 
     # ---- verdicts
     tot = collections.Counter()
-    skipped = []
+    skipped, retried = [], []
     viol = {}     # key -> first divergence
     nkeys = collections.Counter()
     for r in good:
@@ -203,7 +215,8 @@ def run(ctx):
         tot["programs_with_surviving_call"] += sum(1 for pr in r["programs"] if pr.get("survivors"))
         tot["unexpected_statement_errors"] += sum(pr.get("unexpected_errors") or 0 for pr in r["programs"])
         tot["paths_built"] += len(r.get("paths") or [])
-        skipped += ["%s %s" % (r["group"], s) for s in (r.get("skipped_paths") or [])]
+        skipped += ["%s %s" % (r["group"], s[:300]) for s in (r.get("skipped_paths") or [])]
+        retried += ["%s %s" % (r["group"], s) for s in (r.get("recover_open_retries") or [])]
         for d in r.get("divergences") or []:
             nkeys[d["key"]] += 1
             viol.setdefault(d["key"], d)
@@ -221,11 +234,13 @@ def run(ctx):
     new = {k: d for k, d in viol.items() if not vlib.match_known(ctx.pid, k)}
     if new:
         regroups, order = [], []
+        origin = {c["id"]: (c, g) for g in groups for c in g["cases"]}
         for k, d in list(new.items())[:12]:
-            if not d.get("prog"):
+            if d.get("case") not in origin:
                 continue
+            c, g = origin[d["case"]]
             order.append(k)
-            regroups.append({"id": "confirm%d" % len(regroups), "cases": [dict(d["prog"], id="confirm")], "norw": False, "snap_half": False})
+            regroups.append({"id": "confirm%d" % len(regroups), "cases": [dict(c, id="confirm")], "norw": g["norw"], "fk": g.get("fk", False), "snap_half": False})
         if regroups:
             inp2, out2 = os.path.join(ctx.scratch, "confirm.ndjson"), os.path.join(ctx.scratch, "confirm.out.ndjson")
             vlib.write_nd(inp2, regroups)
@@ -246,6 +261,10 @@ def run(ctx):
 
     ctx.cov["driver"] = dict(tot, groups=len(good), groups_failed=len(bad), replay_wall_s=st.get("wall_s"), skipped_paths=skipped[:10])
     ctx.cov["divergence_keys"] = dict(nkeys)
+    if retried:
+        # not what C01 judges (the node's database after the second start is compared like any other): the first open after
+        # RecoverNode can fail with "failed to load any existing snapshots" (fsmRestore lists the snapshot store while the reaper holds its lock)
+        ctx.cov["recovery_first_open_failed_then_restarted"] = {"count": len(retried), "examples": retried[:3]}
     ctx.add("traces_validated_against_impl", tot["comparisons"])
     ctx.add("evaluations", tot["statements"])
     ctx.add("distinct_nontrivial", tot["rewritten"])
